@@ -5,6 +5,15 @@ ROOT = os.path.dirname(os.path.dirname(os.path.abspath(__file__)))
 
 # id -> (technique, level text, level note, design ref)
 CLAIMED = {
+ "C13": ("reachability of crash classes (explicit panic, unchecked type assertion, constant index) from the request-facing API in the VTA call graph, with dominance/guard-summary/sealed-interface/Format-test/dynamic-type-set dischargers and a per-site triage table",
+         "Decides that no explicit panic, unchecked type assertion or constant/len-relative index that request content could trigger is reachable from Selection/Browser/reader/writer/xpath/NewValue entry points, except sites listed as known findings; any new such site (a dropped guard, a new assertion, a new panic) is reported with its call chain. It does not decide nil dereferences outside these classes, arithmetic indexes, recursion depth on nested input or hangs.",
+         "Trusts the VTA call graph (no reflect.Value.Call/unsafe into the library), the closed-world assumption for sealed meta interfaces, and the triage table's per-site reasons (API-misuse preconditions and schema invariants, each confirmed by reading).",
+         "DESIGN.md §2 C13/C14"),
+ "C14": ("the same crash-class reachability engine from the LOAD entry points and every exported accessor of package meta (WALK), plus the module-xor-error return-shape rule on the load functions",
+         "Decides that loading any text and walking the result cannot reach an explicit panic, an undischarged unchecked type assertion or a constant index on a possibly empty token, except listed known findings, and that every load function returns either a module or an error, never both. Termination (recursion cycles, fixed-size lexer buffers) is covered only by the rules named in evidence; stack depth on deeply nested input and hangs are not decided.",
+         "Trusts the VTA call graph, goyacc's generated driver ($-stack indexing) and the triage table's grammar/schema invariants, each confirmed by reading.",
+         "DESIGN.md §2 C13/C14"),
+
  "C17": ("SSA sign-derivation analysis of every val.Comparable.Compare (path conditions confine receiver-vs-argument relation; integer-width rule on differences) + call-shape rules on Equal/CompareVals/sliceSorter/reflectCompare",
          "Decides, for all values at once, structural necessary conditions of the order laws: each Compare returns a constant only where dominating comparisons pin the relation, never a wrapping or unsigned difference; Equal on scalars is Compare==0 and total over all scalar kinds; tuple comparison bounds its index; sort, search and confirm share one comparator; reflection key comparison covers signed, unsigned, float and string kinds. For this property the shape is most of the behaviour (a Compare built from exact </>/== on the denoted numbers is a total order), but it is not a proof about particular values.",
          "Trusts go/ssa and the rule implementation; strings.Compare/bytes.Compare are taken as correct comparators; Int32 and Enum.Id domains are int32 by construction (table with reasons in c17.go).",
